@@ -298,13 +298,17 @@ func (s *sess) step(a Act) {
 			s.net = append(s.net, wire)
 			e.Wire = ev.Ints(wire)
 		case "Skip":
+			// n messages are protected and lost. The counter is advanced by n real AddOne calls; the first and the
+			// last of the lost messages are really protected (the MAC of all n would only cost time: NIA1 is slow).
 			var wire, plain []byte
 			var err error
 			for k := 0; k < a.N; k++ {
-				wire, plain, err = protect(&s.c, &s.snd, s.c.dir, msgOf(0))
-				if err != nil {
-					e.Err = err.Error()
-					return
+				if k == 0 || k == a.N-1 {
+					wire, plain, err = protect(&s.c, &s.snd, s.c.dir, msgOf(0))
+					if err != nil {
+						e.Err = err.Error()
+						return
+					}
 				}
 				s.snd.AddOne()
 			}
